@@ -273,6 +273,7 @@ class State:
         self.xsyms = {}  # text-source / program / files-source symbols that hold a PATH: name -> (type, expr, phase, cwd)
         self.tree = fixture()
         self.maybe = False
+        self._site = None
         self.unlisted = []
         self.irregular = []
         self.used = set()  # defect models that made a difference (mode 'bug')
@@ -496,9 +497,10 @@ class State:
         try:
             self._apply(i, op, k, ph, info)
         except Broken as b:
-            if (info.irregular and self.mode == 'literal') or (self.mode == 'bug' and len(self.used) > n_used):
-                # the literal reading of an invalid usage (or what a defect model accepts) names a file that does
-                # not exist / cannot be made
+            if (info.irregular and self.mode == 'literal') or (self.mode == 'bug' and len(self.used) > n_used) \
+                    or info.unlisted:
+                # the literal reading of an invalid usage (or what a defect model accepts, or a reading argument
+                # that accepts a relativity it does not list) names a file that does not exist / cannot be made
                 raise Reject('missing', str(b))
             raise
         finally:
@@ -688,7 +690,8 @@ class State:
             else:
                 raise Broken('unknown act ' + k)
         except Broken as b:
-            if (info.irregular and self.mode == 'literal') or (self.mode == 'bug' and len(self.used) > n_used):
+            if (info.irregular and self.mode == 'literal') or (self.mode == 'bug' and len(self.used) > n_used) \
+                    or info.unlisted:
                 raise Reject('missing', str(b))
             raise
         finally:
